@@ -153,6 +153,21 @@ func c14Op(s *SharedStore, r *c14Ref) {
 			r.set(k, v)
 		}
 		s.Merge(m)
+		// the store copies entries in: it must not adopt (alias) the caller's map
+		if vNondet[bool]("touchMergeArgAfterwards") {
+			vCover("merge-arg-mutated-afterwards")
+			k2, v2 := vNondet[string]("ak"), c14Val("av")
+			if vNondet[bool]("mutateArg") {
+				m[k2] = v2 // caller keeps using its map: the store must not change
+			} else {
+				before := len(m)
+				_, had := m[k2]
+				s.Set(k2, v2) // store update: the caller's map must not change
+				r.set(k2, v2)
+				_, has := m[k2]
+				vAssert(len(m) == before && had == has, "store-update-does-not-change-the-merged-in-map")
+			}
+		}
 	case 4:
 		vCover("op-merge-nil")
 		s.Merge(nil)
@@ -170,7 +185,18 @@ func c14Op(s *SharedStore, r *c14Ref) {
 	default:
 		vCover("op-merge-own-snapshot")
 		snap := s.GetAll()
-		s.Merge(snap) // an alias of an earlier GetAll: must be a no-op
+		if vNondet[bool]("clearFirst") {
+			vCover("clear-then-merge-snapshot")
+			s.Clear() // Merge of a snapshot into the emptied store restores it ...
+		}
+		s.Merge(snap) // ... and otherwise is a no-op
+		n0 := len(snap)
+		k2, v2 := vNondet[string]("ak"), c14Val("av")
+		_, had := snap[k2]
+		s.Set(k2, v2) // later store updates never change a snapshot
+		r.set(k2, v2)
+		_, has := snap[k2]
+		vAssert(len(snap) == n0 && had == has, "store-update-does-not-change-an-earlier-snapshot")
 	}
 }
 
